@@ -86,6 +86,9 @@ func (x *Exec) stmt(s ast.Stmt, st *State, label string) outcome {
 		if c, ok := s.X.(*ast.CallExpr); ok {
 			if id, ok := c.Fun.(*ast.Ident); ok && id.Name == "panic" {
 				if _, isB := x.info().ObjectOf(id).(*types.Builtin); isB {
+					if x.panicAllowed(s.Pos()) {
+						return outcome{}
+					}
 					x.oblige(st, "safe", fmt.Sprintf("panic%d", x.nextOrd("safe:panic")), tFalse, s.Pos(), "explicit panic unreachable")
 					return outcome{}
 				}
